@@ -176,6 +176,30 @@ def _is_warn(s: ast.stmt) -> bool:
     return isinstance(s, ast.Expr) and isinstance(s.value, ast.Call) and ast.unparse(s.value.func) == "warnings.warn"
 
 
+class _InlineProps(ast.NodeTransformer):
+    """`self.center_1` -> what the property `center_1` of the same class returns (one level, single-return properties
+    whose name starts with `center`)"""
+
+    def __init__(self, cdef):
+        self.cdef = cdef
+
+    def visit_Attribute(self, node):
+        a = _self_attr(node)
+        if a is not None and a.startswith("center"):
+            fwd = _method(self.cdef, a)
+            if fwd is not None:
+                fb = [s for s in _body(fwd) if not _is_warn(s)]
+                if len(fb) == 1 and isinstance(fb[0], ast.Return) and fb[0].value is not None:
+                    return fb[0].value
+        return self.generic_visit(node)
+
+
+def _inline_center_props(cdef, e):
+    import copy
+
+    return _InlineProps(cdef).visit(copy.deepcopy(e))
+
+
 def _center_table(classes) -> List[Tuple[str, str]]:
     out = []
     for name in sorted(classes):
@@ -198,7 +222,7 @@ def _center_table(classes) -> List[Tuple[str, str]]:
                 fb = [s for s in _body(fwd) if not _is_warn(s)]
                 if len(fb) == 1 and isinstance(fb[0], ast.Return) and fb[0].value is not None:
                     e = fb[0].value
-        out.append((name, _normal_expr(e)))
+        out.append((name, _normal_expr(_inline_center_props(cdef, e))))
     return out
 
 
@@ -301,6 +325,24 @@ def _cardinalities(classes) -> List[Tuple[str, str, int]]:
     return out
 
 
+def _array_min_rows(classes) -> int:
+    """`Array.__init__`: `if len(<points>) <= k: raise` (or `< k`) -> the least number of rows an Array can have"""
+    init = _method(_class_ast(classes["Array"]), "__init__")
+    found = []
+    for s in ast.walk(init):
+        if isinstance(s, ast.If) and any(isinstance(b, ast.Raise) for b in s.body) and isinstance(s.test, ast.Compare) \
+                and isinstance(s.test.left, ast.Call) and ast.unparse(s.test.left.func) == "len" and len(s.test.ops) == 1 \
+                and isinstance(s.test.comparators[0], ast.Constant) and isinstance(s.test.comparators[0].value, int):
+            k = s.test.comparators[0].value
+            if isinstance(s.test.ops[0], ast.LtE):
+                found.append(k + 1)
+            elif isinstance(s.test.ops[0], ast.Lt):
+                found.append(k)
+    if len(found) != 1:
+        raise ValueError(f"Array.__init__: expected one guard on the number of points, found {found}")
+    return found[0]
+
+
 def emit_all(emit):
     guard = getattr(emit, "guard", lambda fn, *a, **k: fn(*a, **k))
     classes = _classes()
@@ -334,6 +376,9 @@ def emit_all(emit):
         emit("c09Cardinality", "List (String × String × Nat)", _cardinalities(classes),
              "(class, attribute listed in `parts`, how many the constructor insists on): Face guards, Operation's list literal")
 
+    def g_array():
+        emit("c09ArrayMinRows", "Nat", _array_min_rows(classes), "the least number of rows `Array.__init__` accepts")
+
     # every group is an independent `ast` reading of the current source: one that fails leaves the others in place
-    for g in (g_parts, g_center, g_methods, g_transform, g_card):
+    for g in (g_parts, g_center, g_methods, g_transform, g_card, g_array):
         guard(g)
